@@ -241,8 +241,8 @@ macro_rules! shared_protocol_cases {
                     out.push(mk_with(STACK, proto, "Accept", &format!("v{v}/{dn}"), hs::Message::<D>::Accept(v, d.clone()), hs_render::<D>).probe("handshake::VersionData", d.clone()));
                 }
             }
-            for (rn, r) in refuse_reasons() {
-                out.push(mk_with(STACK, proto, "Refuse", rn, hs::Message::<D>::Refuse(r.clone()), hs_render::<D>).probe("handshake::RefuseReason", r));
+            for ((rn, r), (_, r2)) in refuse_reasons().into_iter().zip(refuse_reasons()) {
+                out.push(mk_with(STACK, proto, "Refuse", rn, hs::Message::<D>::Refuse(r), hs_render::<D>).probe("handshake::RefuseReason", r2));
             }
         }
         fn handshake(out: &mut Vec<Case>) {
